@@ -164,6 +164,21 @@ def run_algebra(case, ctx):
     out = ctx.sut(par.apply, readings, stype)
     ctx.check(readings.equals(snap), 'input_modified:apply', '')
     ctx.check(list(out.columns) == cols and out.index.equals(readings.index), 'apply_schema', '')
+    # apply_imu_parameters == the two triads applied separately (noise-free: deterministic), same schema as the input
+    if case['sub'] % 4 == 0:
+        imu6 = pd.DataFrame(np.hstack([x, 2 * x[:, ::-1]]), index=readings.index,
+                            columns=['gyro_x', 'gyro_y', 'gyro_z', 'accel_x', 'accel_y', 'accel_z'])
+        isnap = imu6.copy()
+        both = ctx.sut(isn.apply_imu_parameters, imu6, stype, isn.Parameters(T, b), isn.Parameters(bias=-b))
+        ctx.check(imu6.equals(isnap), 'input_modified:apply_imu_parameters', '')
+        ctx.check(list(both.columns) == list(imu6.columns) and both.index.equals(imu6.index), 'apply_imu_schema', lambda: str(list(both.columns)))
+        g_only = isn.Parameters(T, b).apply(imu6[['gyro_x', 'gyro_y', 'gyro_z']], stype)
+        a_only = isn.Parameters(bias=-b).apply(imu6[['accel_x', 'accel_y', 'accel_z']], stype)
+        ctx.check(np.array_equal(both.values[:, :3], g_only.values) and np.array_equal(both.values[:, 3:], a_only.values),
+                  'apply_imu_parameters_differs_from_separate_triads', '')
+        none = ctx.sut(isn.apply_imu_parameters, imu6, stype)
+        ctx.check(np.array_equal(none.values, imu6.values), 'default_parameters_not_identity', '')
+        ctx.label('apply_imu_parameters_checked')
     # data_frame columns == model states (exactly the enabled parameters are non-zero)
     df = par.data_frame
     ctx.check(list(df.columns) == names, 'parameter_table_names', lambda: f'{list(df.columns)} vs states {names}')
